@@ -17,7 +17,7 @@ import (
 
 func c01Plan(tier string) histPlan {
 	if tier == "thorough" {
-		return histPlan{Enum: gen.EnumParams{MaxAdds: []int{6, 4, 3}}, Rand: 120000, Tall: 300}
+		return histPlan{Enum: gen.EnumParams{MaxAdds: []int{6, 4, 3}}, Rand: 500000, Tall: 800}
 	}
 	return histPlan{Enum: gen.EnumParams{MaxAdds: []int{4, 3, 2}}, Rand: 12000, Tall: 16}
 }
@@ -36,7 +36,7 @@ func init() {
 		Plan: func(tier string) []core.Suite {
 			n := 2000
 			if tier == "thorough" {
-				n = 60000
+				n = 200000
 			}
 			return append(c01Plan(tier).suites(), core.Suite{Name: "collide", N: n})
 		},
